@@ -35,6 +35,37 @@ fn main() {
         tuiworld::remove_fixture();
         return;
     }
+    if argv.get(1).map(String::as_str) == Some("hangscan") {
+        // diagnostic: draw a fixed state at every terminal width in a thread of its own (this
+        // process's hash seed = VERIF_HASH_SEED) and report draws that do not return
+        let (tx, rx) = std::sync::mpsc::channel::<(u16, u16)>();
+        let heights: Vec<u16> = argv.get(2).map_or(vec![24], |h| h.split(',').map(|x| x.parse().unwrap()).collect());
+        for h in heights {
+            for w in 1..=300u16 {
+                let tx = tx.clone();
+                let t = std::thread::spawn(move || {
+                    let mut wd = World::new(&WorldCfg { size: (w, h), ..WorldCfg::default() });
+                    wd.trace_event(TraceEv::Path3, 0);
+                    wd.trace_event(TraceEv::Branch, 0);
+                    wd.loop_top();
+                    let _ = vcore::mc::catch(|| wd.draw());
+                    wd.press("toggle_hop_details");
+                    wd.press("next_hop");
+                    wd.loop_top();
+                    let _ = vcore::mc::catch(|| wd.draw());
+                    let _ = tx.send((w, h));
+                });
+                match rx.recv_timeout(std::time::Duration::from_secs(5)) {
+                    Ok(_) => {
+                        let _ = t.join();
+                    }
+                    Err(_) => println!("HANG seed={} size={}x{}", std::env::var("VERIF_HASH_SEED").unwrap_or_default(), w, h),
+                }
+            }
+        }
+        tuiworld::remove_fixture();
+        std::process::exit(0);
+    }
     if argv.len() < 2 {
         eprintln!("usage: vtui <C16|C17|C18> [--tier quick|thorough] [--replay file]");
         std::process::exit(2);
